@@ -14,7 +14,7 @@ def showPopped : Popped → String
 def intOf (s : String) : Option Int :=
   if s.startsWith "-" then (s.drop 1).toString.toNat?.map (fun n => -(n : Int)) else s.toNat?.map (fun n => (n : Int))
 
-def schedRun (toks : List String) : Option String := do
+def schedRunRR (toks : List String) : Option String := do
   let i := toks.findIdx? (· == "@@")
   let (op, obs) := match i with | some k => (toks.take k, toks.drop (k + 1)) | none => (toks, [])
   let kind ← kv op "kind"
